@@ -26,6 +26,16 @@ Per run:
         reorder_pops view / transposed / negatively strided / strided / Fortran-ordered spectrum = text for its contiguous copy).
   (iv) input freezing / aliasing on every evaluated call; observed protocol of every integrator call is checked against
         the extracted one inside Coq (Model/MemoCheck.proto_check).
+  (v) ALIAS obligation and the mutate-the-result / mutate-the-argument stream (harness/props/c20_alias.py): a Spectrum is a PAIR of buffers
+        (data, mask) plus label lists.  On every evaluated call no buffer of the result may share memory with any buffer of any argument or of
+        any module-level object except the reviewed table of documented views (al.ALLOWED); for every array-returning call of a systematic
+        directed list (all Spectrum operators x side x operand kind, numpy-level operations, Spectrum methods, array helpers, PhiManip,
+        integrators and from_phi d=1..5, from_demes, low-pass wrappers, optimiser helpers) the result is edited in place (mask entry flipped,
+        data scaled, list appended) and the arguments must stay bit-for-bit what they were (data AND mask bytes) and ll / ll_multinom / S / sum /
+        from_phi / the same call on them must return their pristine-interpreter values - and the mirror.  Translator: the constructor call of the
+        exec-generated operator templates copies (one generated Coq obligation per operator: protocol = arith_copy_protocol, Props/C20.v
+        C20_arith_copy_result_edit_frames_operand / C20_arith_nocopy_refuted / C20_arith_frames_iff_copies); every `copy=` keyword of dadi/**/*.py
+        is enumerated fail-closed; observed aliasing of every operator call = Heap.arith of the extracted protocol inside Coq (MemoCheck.arith_check).
 
 "Fresh interpreter": importing dadi costs 2-3 s, so every reference call / history / layout chunk runs in its own FORK of an
 interpreter that has imported the rebuilt dadi and done nothing else (harness/impl/c20_impl.py mode 'batch', one interpreter
@@ -40,6 +50,7 @@ from harness.lib import b
 from harness.translate import entry_protocol as ep
 from harness.props import c20_scan as scan
 from harness.props import c20_nearcol as nc
+from harness.props import c20_alias as al
 
 R = os.path.join(lib.REPO, 'dadi')
 ENV = {'OPENBLAS_NUM_THREADS': '1', 'MKL_NUM_THREADS': '1', 'DADI_REPO': lib.REPO}
@@ -113,6 +124,15 @@ EXPECTED_STATE = {
     'TwoLocus/numerics.py': ['module:genotype_projection_cache', 'module:prob_cache', 'module:sample_cache'],
     'cuda/cusparse.py': ['module:cusparseExceptions'],
 }
+
+# every call that passes a `copy=` keyword (entry_protocol.copy_keywords; exec templates included): literal True, or the three constructors
+# handing their own `copy` parameter (default True) to numpy.ma.masked_array.  copy=False would make numpy keep the caller's buffers - data AND mask.
+EXPECTED_COPY_KW = [
+    'Godambe.py:LRT_adjust.diff_func:numpy.array(copy=True)', 'Godambe.py:Wald_stat.diff_func:numpy.array(copy=True)', 'Godambe.py:get_grad:numpy.array(copy=True)',
+    'Godambe.py:hessian_elem:numpy.array(copy=True)', 'Godambe.py:score_stat.diff_func:numpy.array(copy=True)',
+    'Spectrum_mod.py:Spectrum.__new__:numpy.ma.masked_array(copy=copy)', 'Triallele/TriSpectrum_mod.py:TriSpectrum.__new__:numpy.ma.masked_array(copy=copy)',
+    'TwoLocus/TLSpectrum_mod.py:TLSpectrum.__new__:np.ma.masked_array(copy=copy)',
+]
 
 # ------------------------------------------------------------------------------------------------------------------
 # (T) translators
@@ -225,6 +245,48 @@ def translator_tie(ctx):
         ctx.obligation('Spectrum.S is %s (Heap.save_mutate_restore_frames applies)' % kind, kind in ('save-mutate-restore', 'pure'), 'translator')
     except ep.Refuse as e:
         ctx.obligation('Spectrum.S recognised', False, 'translator', str(e))
+    # --- Spectrum arithmetic operators (exec-generated): the constructor call that builds the result copies data AND mask
+    info['arith'] = {}
+    try:
+        ops = ep.spectrum_operators(os.path.join(R, 'Spectrum_mod.py'))
+    except ep.Refuse as e:
+        ctx.obligation('translate the exec-generated arithmetic operators of Spectrum_mod.py (constructor protocol of the result)', False, 'translator', str(e))
+        ops = {}
+    else:
+        ctx.obligation('translate the exec-generated arithmetic operators of Spectrum_mod.py (constructor protocol of the result)', True, 'translator')
+        miss = sorted((set(ep.ARITH_BINARY) | set(ep.ARITH_INPLACE)) - set(ops))
+        ctx.obligation('every arithmetic operator of Spectrum (%d binary / reflected, %d in-place) is generated by the recognised templates' % (
+            len(ep.ARITH_BINARY), len(ep.ARITH_INPLACE)), not miss, 'translator', repr(miss))
+    afiles = []
+    for m in ep.ARITH_BINARY:
+        d = ops.get(m)
+        if d is None or d['kind'] != 'binary':
+            continue
+        info['arith'][m] = {'copies': d['copies'], 'copy_kw': d['copy_kw'], 'ctor_default_copy': d['ctor_default_copy']}
+        v = '\n'.join([
+            'From Coq Require Import List Bool.',
+            'From Dadi Require Import Model.Heap.',
+            '(* extracted from dadi/Spectrum_mod.py, operator template at line %d instantiated for %s: newdata = %s; newmask = %s;' % (d['line'], m, ' | '.join(d['newdata']), ' | '.join(d['newmask'])),
+            '   result = %s ;  copy keyword of that call: %r, default of Spectrum.__new__(copy=): %r *)' % (d['ctor'].replace('*)', '* )'), d['copy_kw'], d['ctor_default_copy']),
+            'Definition proto_%s := {| ctor_copies := %s |}.' % (m.strip('_'), b(d['copies'])),
+            'Lemma ob_%s : proto_%s = arith_copy_protocol.' % (m.strip('_'), m.strip('_')),
+            'Proof. reflexivity. Qed.', ''])
+        afiles.append(('C20_ob_arith_' + m.strip('_'), v, m))
+    ares = lib.run_case_files([(n, t) for n, t, _ in afiles], timeout=300) if afiles else {}
+    for n, t, m in afiles:
+        rc, so, se, secs = ares[n]
+        ctx.obligation('generated obligation %s: Spectrum.%s builds its result with a constructor call that COPIES data and mask (= arith_copy_protocol; '
+                       'C20_arith_copy_result_edit_frames_operand applies, otherwise C20_arith_nocopy_refuted)' % (n, m), rc == 0, 'translator', se[-300:] if rc else '')
+    if afiles:
+        ctx.checker_cmds.append('coqc build/cases/C20_ob_arith_*.v (regenerated from the operator templates of dadi/Spectrum_mod.py)')
+    try:
+        ck = ep.copy_keywords(R)
+        diff = {'new': sorted(set(ck) - set(EXPECTED_COPY_KW)), 'gone': sorted(set(EXPECTED_COPY_KW) - set(ck))}
+        ctx.obligation('`copy=` keywords in dadi/**/*.py (string templates included) are the %d listed ones: literal True, or a constructor passing on its own copy=True default'
+                       % len(EXPECTED_COPY_KW), not diff['new'] and not diff['gone'], 'translator', json.dumps(diff)[:500])
+        info['copy_kw_diff'] = diff
+    except ep.Refuse as e:
+        ctx.obligation('enumerate the `copy=` keywords of dadi/**/*.py', False, 'translator', str(e))
     # --- parameter mutations
     info['param_mutations'] = {}
     for fname, allowed in sorted(DOCUMENTED_INPLACE.items()):
@@ -673,6 +735,18 @@ def run_many(payloads, seeds=None, exec_each=False):
 
 
 def op_family(spec):
+    if spec['op'] in ('ar', 'nx') or (spec['op'] == 'sp' and spec['m'] in ('add', 'sub', 'mul', 'div')):
+        return al.family(spec, None)
+    if spec['op'] == 'll':
+        return 'Inference.' + spec['f']
+    if spec['op'] == 'dd':
+        return 'Spectrum.from_data_dict'
+    if spec['op'] == 'from_phi':
+        return 'Spectrum.from_phi_inbreeding' if spec.get('inb') else 'Spectrum.from_phi'
+    if spec['op'] == 'opt' and spec['f'] in ('proj_down', 'proj_up') and spec.get('fixed') is None:
+        return 'Inference._project_params_%s(fixed_params=None)' % spec['f'][5:]
+    if spec['op'] == 'pm' and spec['k'] in ('reorder', 'admix_inplace'):
+        return {'reorder': 'PhiManip.reorder_pops', 'admix_inplace': 'PhiManip.' + spec.get('fn', 'phi_%dD_admix (documented in-place)' % spec['d'])}[spec['k']]
     if spec['op'] == 'integ':
         return 'Integration.' + INTEG_NAME[spec['d']]
     if spec['op'] == 'opt':
@@ -700,6 +774,7 @@ class Reporter:
         self.ctx = ctx
         self.seen = {}
         self.integ = {}
+        self.alias = {'array_returning_calls': 0, 'calls_with_allowed_views': 0, 'new_alias': 0, 'families': set()}
 
     def report(self, key, what, data, unkeyed_id=None):
         k = key if key is not None else ('?' + str(unkeyed_id))
@@ -711,9 +786,35 @@ class Reporter:
         self.ctx.violation(what, data=data, key=key)
 
 
+def alias_findings(rep, spec, rec, where):
+    """the ALIAS obligation on one evaluated call: every (result buffer, argument / module-level buffer) pair that shares memory is in al.ALLOWED"""
+    if not rec.get('array_like'):
+        return
+    fam = op_family(spec)
+    st = rep.alias
+    st['array_returning_calls'] += 1
+    st['families'].add(fam)
+    pairs = rec.get('alias_pairs') or []
+    al.discover(fam, pairs)
+    if spec['op'] == 'integ':
+        pairs = [p for p in pairs if p != ['R.data', 'phi.data']]       # the integrator protocol stream reports this one (with its known-finding key)
+    new = al.new_pairs(fam, pairs)
+    if pairs and not new:
+        st['calls_with_allowed_views'] += 1
+    if new:
+        st['new_alias'] += 1
+        mask = [p for p in new if p[0].endswith('.mask')]
+        p0 = (mask or new)[0]
+        rep.report(None, '%s returns a result whose buffer %s shares memory with %s%s: a later in-place edit of one object (fs.mask[...] = True, mask_corners(), +=) silently changes '
+                   'the other, so later results on it depend on the history [%s]' % (
+                       fam, p0[0], p0[1], (' (and %d more pairs)' % (len(new) - 1)) if len(new) > 1 else '', where),
+                   {'kind': 'alias', 'call': spec, 'observed': {'new_alias_pairs': new, 'all_pairs': pairs}}, unkeyed_id='alias:' + fam)
+
+
 def freeze_findings(rep, spec, rec, where):
     """argument modified / result aliases argument, from one evaluated call record"""
     fam = op_family(spec)
+    alias_findings(rep, spec, rec, where)
     if spec['op'] == 'integ' and (rec.get('mutated') in (['phi'], []) ) and (rec.get('mutated') or rec.get('aliased') or rec.get('result_is_arg')):
         # collected per integrator, reported once with every symptom (flush_integrators)
         d = rep.integ.setdefault(INTEG_NAME[spec['d']], {})
@@ -941,6 +1042,77 @@ def export_phase(ctx, rep, export_calls, allres):
                    nbad == 0 and nnc >= len(export_calls) - 2, 'predicate', '%d differ' % nbad)
 
 
+def mutate_phase(ctx, rep, info, specs, recs, replay=False, ndirected=None):
+    """judgement of the mutate stream (al.judge) + the observed aliasing of every operator call against Heap.arith of the extracted protocol, inside Coq"""
+    nbad = nharn = 0
+    tot = {'edits': 0, 'excused': 0, 'followups': 0}
+    fams = set()
+    acases, ameta = [], {}
+    for i, spec in enumerate(specs):
+        r = recs.get(i)
+        if r is None:
+            continue
+        fam = op_family(spec)
+        fams.add(fam)
+        finds, st = al.judge(fam, spec, r)
+        for k in tot:
+            tot[k] += st[k]
+        PR = r.get('P_R') or {}
+        if PR.get('array_like'):
+            # the ALIAS obligation on the pristine evaluation of the directed call
+            alias_findings(rep, spec, PR, 'mutate stream, pristine evaluation')
+        ctx.case(signature=('mutate', sig(spec)) if PR.get('array_like') else None,
+                 sample={'mutate_stream': fam, 'call': short(spec), 'alias_pairs': PR.get('alias_pairs'), 'findings': [f['what'][:120] for f in finds]} if i < 2 or finds else None)
+        ctx.count('mutate-stream family kind=' + fam.split('.')[0].split('(')[0].split(':')[0])
+        for f in finds:
+            if f.get('harness') and f['uid'] == 'error-pristine' and ndirected is not None and i >= ndirected:
+                # a randomly drawn catalogue call that raises in a pristine interpreter too returns no array: nothing to edit (the directed list must run)
+                ctx.count('mutate-stream catalogue call raises (skipped)')
+                continue
+            if f.get('harness'):
+                nharn += 1
+                ctx.obligation('mutate stream ran for %s (%s)' % (fam, short(spec)), False, 'harness', f['what'][-400:])
+                continue
+            nbad += 1
+            rep.report(None, f['what'], {'kind': 'mutate', 'call': spec, 'edit': f['edit'], 'observed': f['observed']}, unkeyed_id='%s:%s' % (f['uid'], fam))
+        # operator calls: observed aliasing against the model of the protocol the translator extracted
+        if spec['op'] == 'ar' and spec['side'] in 'lr' and PR.get('array_like') and 'M' in r and 'crash' not in r['M']:
+            m = '__%s%s__' % ('r' if spec['side'] == 'r' else '', spec['o'])
+            pr = (info.get('arith') or {}).get(m)
+            other_has_mask = spec['other']['k'] in ('ma_mask', 'spectrum', 'spectrum_nomc')
+            if pr is not None and (pr['copies'] or not other_has_mask):
+                pairs = PR.get('alias_pairs') or []
+                mr = (r['M'].get('mask') or {}).get('R') or {}
+                changed = any(l.endswith('.mask') for l in mr.get('changed', []))
+                n = len(acases)
+                acases.append((n, '{| ac_copies := %s; ac_obs_mask_alias := %s; ac_obs_data_alias := %s; ac_obs_operand_changed := %s |}' % (
+                    b(pr['copies']), b(any(p[0] == 'R.mask' and p[1].endswith('.mask') for p in pairs)),
+                    b(any(p[0] == 'R.data' and p[1].endswith('.data') for p in pairs)), b(changed))))
+                ameta[n] = (m, spec)
+    ctx.stats['mutate_stream'] = {'calls': len(specs), 'families': len(fams), 'edit_phases_run': tot['edits'], 'excused_documented_view_changes': tot['excused'],
+                                  'followup_values_compared_with_pristine': tot['followups']}
+    ctx.obligation('mutate stream: for %d array-returning calls of %d operation families, editing the RESULT in place (mask entry flipped / data scaled / list appended; %d edit phases) '
+                   'leaves every argument bit-for-bit unchanged (data AND mask bytes, lists) and ll / ll_multinom / S / sum / from_phi / the same call on them return their '
+                   'pristine-interpreter values (%d values), and editing the ARGUMENTS leaves the result unchanged - except through the documented views of c20_alias.ALLOWED' % (
+                       len(specs), len(fams), tot['edits'], tot['followups']), nbad == 0 and nharn == 0 and tot['edits'] > 0 and tot['followups'] > 0, 'predicate',
+                   '%d findings' % nbad)
+    if not replay:
+        want = set('Spectrum.__%s%s__' % (p, o) for o in al.OPS for p in ('', 'r', 'i'))
+        ctx.obligation('mutate stream covers every Spectrum operator (binary, reflected, in-place twin) with every kind of other operand', want <= fams, 'harness', repr(sorted(want - fams)))
+    if acases:
+        header = 'From Coq Require Import ZArith List Bool.\nFrom Dadi Require Import Model.Heap Model.MemoCheck.\nImport ListNotations.'
+        ares = ctx.coq_cases('arith', header, acases, 'arith_check', 'exact (booleans)', shard=400, kind='protocol')
+        nb = 0
+        for n, (m, spec) in ameta.items():
+            rr = ares.get(n)
+            if not (rr is not None and rr[0]):
+                nb += 1
+                if nb <= 3:
+                    ctx.obligation('observed aliasing of Spectrum.%s (%s) = Heap.arith of its extracted constructor protocol' % (m, short(spec)), False, 'correspondence', repr(rr))
+        ctx.obligation('observed mask / data aliasing and operand change of %d Spectrum operator calls = Heap.arith of the constructor protocol extracted from the source' % len(ameta),
+                       nb == 0, 'correspondence')
+
+
 def memo_case_text(res):
     """Coq record for one instrumented history"""
     kid, vid = {}, {}
@@ -1131,6 +1303,18 @@ def run(ctx):
             ctx.count('near-collision entry points family=' + f)
     if broken:
         ctx.notes.append('source obligation(s) of the families %s broke: their near-collision pairs run in thorough-size numbers' % sorted(broken))
+    # ---- the mutate-the-result / mutate-the-argument stream (systematic directed list; thorough: the array-returning catalogue calls too)
+    mut_specs = al.directed(cat, rng, gen_fs, gen_phi, ctx.quick, dy)
+    n_directed = len(mut_specs)
+    if not ctx.quick:
+        seen_m = set(sig(c) for c in mut_specs)
+        for c in calls:
+            if c['op'] in ('sp', 'model', 'from_phi', 'integ', 'pm', 'lp', 'll', 'opt', 'dd') and sig(c) not in seen_m and not (c['op'] == 'sp' and c['m'] in ('to_file', 'tofile', 'array_to_file')):
+                seen_m.add(sig(c)); mut_specs.append(c)
+    nmut = max(1, min(len(mut_specs), 2 * JOBS))
+    mut_chunks = [list(range(len(mut_specs)))[i::nmut] for i in range(nmut)]
+    for c in mut_specs:
+        ctx.count('mutate-stream op=' + c['op'])
     # ---- ONE round: every job in its own fork of an interpreter that has only imported dadi
     jobs, tags, jseeds = [], [], []
     def add(tag, payload, seed=0):
@@ -1148,6 +1332,8 @@ def run(ctx):
         add(('xseed', sig(c), s), {'mode': 'eval', 'calls': [c]}, s)
     for hi, s, ins in plan:
         add(('hist', hi, s), {'mode': 'eval', 'calls': hists[hi], 'instrument': ins}, s)
+    for k, ch in enumerate(mut_chunks):
+        add(('mut', k), {'mode': 'mutate', 'calls': [mut_specs[i] for i in ch]})
     allres = dict(zip(tags, run_many(jobs, jseeds)))
     lap('evaluation round (%d jobs)' % len(jobs))
     ctx.checker_cmds.append('harness/impl/c20_impl.py mode=batch: every reference call / history / layout chunk in its own fork of a /venv/bin/python that has only imported the rebuilt dadi (PYTHONPATH=overlay), one interpreter group per PYTHONHASHSEED')
@@ -1281,6 +1467,23 @@ def run(ctx):
     near_collision_phase(ctx, rep, info, ents, nc_jobs, allres, ref, broken)
     export_phase(ctx, rep, export_calls, allres)
     lap('near-collision pairs, exporters')
+    mut_recs = {}
+    for k, ch in enumerate(mut_chunks):
+        r = allres[('mut', k)]
+        if 'crash' in r:
+            ctx.obligation('mutate-stream chunk %d ran' % k, False, 'harness', r['crash'][-400:])
+            continue
+        for i, rr in zip(ch, r['calls']):
+            mut_recs[i] = rr
+    mutate_phase(ctx, rep, info, mut_specs, mut_recs, ndirected=n_directed)
+    st = rep.alias
+    ctx.stats['alias'] = dict(st, families=sorted(st['families']), allowed_table_entries=len(al.ALLOWED))
+    ctx.obligation('ALIAS obligation: in %d evaluated array-returning calls (%d operation families) no buffer of the result - data, mask, label lists - shares memory with a buffer of an '
+                   'argument or of a module-level / cached object, except the %d reviewed documented views (c20_alias.ALLOWED; %d calls returned such a view)' % (
+                       st['array_returning_calls'], len(st['families']), len(al.ALLOWED), st['calls_with_allowed_views']),
+                   st['new_alias'] == 0 and st['array_returning_calls'] > 0, 'predicate', '%d calls with a new alias' % st['new_alias'])
+    al.discover_flush()
+    lap('mutate stream')
     # ---- memo machine inside Coq
     header = 'From Coq Require Import ZArith NArith List.\nFrom Dadi Require Import Model.Memo Model.MemoCheck.\nImport ListNotations.'
     mres = ctx.coq_cases('memo', header, memo_cases, 'memo_check', 'exact (ids)', shard=ctx.pick(8, 20), kind='memo')
@@ -1405,6 +1608,24 @@ def run_replay(ctx):
             freeze_findings(rep, inp['also_T0'], r0['calls'][0], 'replay')
         flush_integrators(rep)
         ctx.obligation('replayed call leaves its arguments unchanged and returns a fresh array', not ctx.violations, 'predicate')
+    elif kind == 'alias':
+        r = run_many([{'mode': 'eval', 'calls': [inp['call']]}])[0]
+        rec = r['calls'][0]
+        ctx.case(sample={'call': short(inp['call']), 'alias_pairs': rec.get('alias_pairs')})
+        alias_findings(rep, inp['call'], rec, 'replay')
+        ctx.obligation('replayed call returns a result that shares no buffer with its arguments / module-level objects beyond the documented views', not ctx.violations, 'predicate',
+                       json.dumps(rec.get('alias_pairs')))
+    elif kind == 'mutate':
+        r = run_many([{'mode': 'mutate', 'calls': [inp['call']]}])[0]
+        if 'crash' in r:
+            ctx.obligation('replayed mutate case ran', False, 'harness', r['crash'][-400:])
+        else:
+            info = {'arith': {}}
+            try:
+                info['arith'] = {m: {'copies': d['copies']} for m, d in ep.spectrum_operators(os.path.join(R, 'Spectrum_mod.py')).items() if d['kind'] == 'binary'}
+            except ep.Refuse:
+                pass
+            mutate_phase(ctx, rep, info, [inp['call']], {0: r['calls'][0]}, replay=True)
     elif kind == 'history':
         calls = inp['calls']; k = inp['index']
         fresh = run_many([{'mode': 'eval', 'calls': [calls[k]]}])[0]
